@@ -42,6 +42,28 @@ Theorem C41_get_enabled : forall max acts s t i b,
   exists s' v, step max s (AGet t (CPool i)) = Some (s', OGot b v).
 Proof. exact (fun max acts s t i b R => get_enabled max s t i b (ex_intro _ acts R)). Qed.
 
+(* The ordering obligation inside Put.  The theorems above are about "x.Reset() ; b.pool.Put(x)"
+   (APutReset ; APutPool).  With the two swapped — release first, Reset afterwards, e.g. a deferred
+   Reset — the same pool is refuted by a concrete schedule: Get hands thread 2 buffer 7 with 5 bytes
+   in it while thread 1 still holds it, thread 2 writes 3 bytes (8 in all), and thread 1's late
+   Reset wipes them although thread 2 still owns the buffer. *)
+Theorem C41_release_before_reset_refuted :
+  exists s4 s5 sf,
+    run2 0 init (firstn 4 swapped_sched) = Some (s4, [OGot 7 (mkBuf 0 0); ONone; ONone; OGot 7 (mkBuf 64 5)]) /\
+    map h_tid (held s4) = [2; 1] /\ held_ids s4 = [7; 7] /\
+    run2 0 init (firstn 5 swapped_sched) = Some (s5, [OGot 7 (mkBuf 0 0); ONone; ONone; OGot 7 (mkBuf 64 5); ONone]) /\
+    lookup (heap s5) 7 = Some (mkBuf 64 8) /\
+    option_map fst (run2 0 init swapped_sched) = Some sf /\
+    lookup (heap sf) 7 = Some (mkBuf 64 0) /\ holds 2 7 Using (held sf) = true.
+Proof. exact swapped_order_refuted. Qed.
+
+(* What the structural check accepts as the body of Put (read from the Go source on every run, in
+   execution order, deferred calls last): uses by the owner, a Reset, then only Resets / capacity
+   guards, the release, and nothing after it. *)
+Theorem C41_put_shape : forall l, put_shape_ok l = true ->
+  exists pre mid, l = pre ++ 1 :: mid ++ [2] /\ only [1; 3; 5] pre = true /\ only [1; 3] mid = true.
+Proof. exact put_shape_ok_sound. Qed.
+
 (* non-vacuity: an interleaved schedule of two threads is enabled; the reused buffer comes back
    empty with its capacity; on a pool capped at 64 the same buffer (capacity 128) is not kept *)
 Example C41_nonvacuous :
@@ -55,3 +77,5 @@ Print Assumptions C41_empty_on_get.
 Print Assumptions C41_exclusive.
 Print Assumptions C41_cap.
 Print Assumptions C41_get_enabled.
+Print Assumptions C41_release_before_reset_refuted.
+Print Assumptions C41_put_shape.
